@@ -577,6 +577,8 @@ func class(code int) string {
 //	set i now id start end comment sets big   -> ok|<err> <alias|-> <bcasts> <dump>
 //	setq i now id start end comment sets big  -> as set; the proto handed to Set is the one Silences.QueryOne(QIDs(id)) returned, edited in place
 //	post i now id start end comment sets big  -> 200|400|404 <alias|-> <bcasts> <dump>     (HTTP POST /api/v2/silences)
+//	postg i now id start end comment sets big -> as post; the matchers sent are the ones GET /api/v2/silence/{id} returned, as returned
+//	      (`sets` is used only when that GET does not answer 200: unknown id, multi-set silence)
 //	expire i now id                           -> ok|notfound <bcasts> <dump>
 //	delete i now id                           -> 200|404|… <bcasts> <dump>                  (HTTP DELETE /api/v2/silence/{id})
 //	get i now id                              -> 404 | 200 <id,start,end,updated,state>     (HTTP GET /api/v2/silence/{id})
@@ -630,7 +632,7 @@ func (w *World) Exec(line string) string {
 			id = w.Alias(p.Id)
 		}
 		return fmt.Sprintf("%s %s %s %s", errEnum(err), id, bcStr(w.TakeBC(i)), w.Dump(i))
-	case "post":
+	case "post", "postg":
 		w.SleepTo(hx.Atoi64(t[2]))
 		s := parseIn(t[3], t[4], t[5], t[6], t[7])
 		ps := &open_api_models.PostableSilence{}
@@ -646,6 +648,16 @@ func (w *World) Exec(line string) string {
 				n, v := m.Name, m.Pattern
 				eq, re := m.Op == 'e' || m.Op == 'r', m.Op == 'r' || m.Op == 'x'
 				ps.Matchers = append(ps.Matchers, &open_api_models.Matcher{Name: &n, Value: &v, IsEqual: &eq, IsRegex: &re})
+			}
+		}
+		if t[0] == "postg" && s.ID != "-" {
+			// the usual client edit (UI, `amtool silence update`): GET the silence, keep the matchers exactly as
+			// the API returned them (in that order), change comment / times, POST the object back with its id
+			if gc, gb := w.http(i, "GET", "/api/v2/silence/"+w.Real(s.ID), nil); gc == 200 {
+				var g open_api_models.GettableSilence
+				if err := json.Unmarshal(gb, &g); err == nil && len(g.Matchers) > 0 {
+					ps.Matchers = g.Matchers
+				}
 			}
 		}
 		code, body := w.http(i, "POST", "/api/v2/silences", ps)
